@@ -16,7 +16,40 @@ Open Scope Q_scope.
 Definition close1 (a b slack : Q) : bool := Qleb (a - b) slack && Qleb (b - a) slack.
 Definition close (p q : pt) (slack : Q) : bool := close1 (px p) (px q) slack && close1 (py p) (py q) slack.
 Definition peqb (p q : pt) : bool := Qeqb (px p) (px q) && Qeqb (py p) (py q).
-Definition pred (p : pt) : pt := (Qred (px p), Qred (py p)).
+
+(** cheap normalisation of dyadic rationals: cancel the common factors of two of numerator and denominator
+    (linear time, no gcd; all numbers handled by the checkers are dyadic because float64 values are) *)
+Fixpoint strip2 (n d : positive) : positive * positive :=
+  match n, d with
+  | xO n', xO d' => strip2 n' d'
+  | _, _ => (n, d)
+  end.
+
+Definition Qstrip (q : Q) : Q :=
+  match Qnum q with
+  | Z0 => 0
+  | Zpos n => let (n', d') := strip2 n (Qden q) in Zpos n' # d'
+  | Zneg n => let (n', d') := strip2 n (Qden q) in Zneg n' # d'
+  end.
+
+Definition pred (p : pt) : pt := (Qstrip (px p), Qstrip (py p)).
+
+(** de Casteljau evaluation of the polar forms with normalisation after every interpolation step *)
+Definition lerp1s (a b t : Q) : Q := Qstrip (a + Qstrip ((b - a) * t)).
+Definition blq_f (a b c u v : Q) : Q := lerp1s (lerp1s a b u) (lerp1s b c u) v.
+Definition blc_f (a b c d u v w : Q) : Q :=
+  let ab := lerp1s a b u in let bc_ := lerp1s b c u in let cd := lerp1s c d u in
+  lerp1s (lerp1s ab bc_ v) (lerp1s bc_ cd v) w.
+
+Definition quad_sub_f (p0 p1 p2 : pt) (s u : Q) : pt * pt * pt :=
+  ((blq_f (px p0) (px p1) (px p2) s s, blq_f (py p0) (py p1) (py p2) s s),
+   (blq_f (px p0) (px p1) (px p2) s u, blq_f (py p0) (py p1) (py p2) s u),
+   (blq_f (px p0) (px p1) (px p2) u u, blq_f (py p0) (py p1) (py p2) u u)).
+
+Definition cube_sub_f (p0 p1 p2 p3 : pt) (s u : Q) : pt * pt * pt * pt :=
+  let bx := blc_f (px p0) (px p1) (px p2) (px p3) in
+  let by_ := blc_f (py p0) (py p1) (py p2) (py p3) in
+  ((bx s s s, by_ s s s), (bx s s u, by_ s s u), (bx s u u, by_ s u u), (bx u u u, by_ u u u)).
 
 (** squared overshoot of a quadratic Bernstein polynomial (0, dc/cc, 1) below 0, scaled to lengths:
     (alpha^2/(1-2 alpha))^2 * cc with alpha = dc/cc < 0 *)
@@ -26,21 +59,22 @@ Definition ov2 (cc dc : Q) : Q :=
 Definition quad_piece_bound2 (q0 q1 q2 : pt) : Q :=
   let c := pred (vsub q2 q0) in
   let d := pred (vsub q1 q0) in
-  let cc := Qred (nrm2 c) in
+  let cc := Qstrip (nrm2 c) in
   if Qleb cc 0 then nrm2 d * (1 # 4)
-  else let dc := Qred (vdot d c) in
-       sqr (vcross d c) * (1 # 4) / cc + ov2 cc dc + ov2 cc (cc - dc).
+  else let dc := Qstrip (vdot d c) in
+       Qstrip (sqr (Qstrip (vcross d c))) * (1 # 4) / cc + ov2 cc dc + ov2 cc (Qstrip (cc - dc)).
 
 Definition cube_piece_bound2 (q0 q1 q2 q3 : pt) : Q :=
   let c := pred (vsub q3 q0) in
   let d1 := pred (vsub q1 q0) in
   let d2 := pred (vsub q2 q0) in
-  let cc := Qred (nrm2 c) in
+  let cc := Qstrip (nrm2 c) in
   if Qleb cc 0 then (9 # 16) * Qmax (nrm2 d1) (nrm2 d2)
-  else let a1 := Qred (vdot d1 c) in
-       let a2 := Qred (vdot d2 c) in
-       ((9 # 16) * Qmax (sqr (vcross d1 c)) (sqr (vcross d2 c))
-        + (16 # 81) * (sqr (Qneg_part a1 + Qneg_part a2) + sqr (Qneg_part (cc - a1) + Qneg_part (cc - a2)))) / cc.
+  else let a1 := Qstrip (vdot d1 c) in
+       let a2 := Qstrip (vdot d2 c) in
+       ((9 # 16) * Qmax (Qstrip (sqr (Qstrip (vcross d1 c)))) (Qstrip (sqr (Qstrip (vcross d2 c))))
+        + (16 # 81) * (Qstrip (sqr (Qstrip (Qneg_part a1 + Qneg_part a2)))
+                       + Qstrip (sqr (Qstrip (Qneg_part (Qstrip (cc - a1)) + Qneg_part (Qstrip (cc - a2))))))) / cc.
 
 (** generic walk over the certificate: l = [(t_0,v_0); ...; (t_n,v_n)] *)
 Fixpoint chk_pieces (B : Q -> pt) (pb : Q -> Q -> Q) (bound slack : Q) (l : list (Q * pt)) : bool :=
@@ -62,20 +96,25 @@ Definition chk_ends (l : list (Q * pt)) (a b : pt) : bool :=
   Nat.leb 2 (length l).
 
 Definition quad_pb (p0 p1 p2 : pt) (s u : Q) : Q :=
-  let '(q0, q1, q2) := quad_sub p0 p1 p2 s u in quad_piece_bound2 (pred q0) (pred q1) (pred q2).
+  let '(q0, q1, q2) := quad_sub_f p0 p1 p2 s u in quad_piece_bound2 q0 q1 q2.
 
 Definition cube_pb (p0 p1 p2 p3 : pt) (s u : Q) : Q :=
-  let '(q0, q1, q2, q3) := cube_sub p0 p1 p2 p3 s u in cube_piece_bound2 (pred q0) (pred q1) (pred q2) (pred q3).
+  let '(q0, q1, q2, q3) := cube_sub_f p0 p1 p2 p3 s u in cube_piece_bound2 q0 q1 q2 q3.
+
+Definition quadB_f (p0 p1 p2 : pt) (t : Q) : pt :=
+  (blq_f (px p0) (px p1) (px p2) t t, blq_f (py p0) (py p1) (py p2) t t).
+Definition cubeB_f (p0 p1 p2 p3 : pt) (t : Q) : pt :=
+  (blc_f (px p0) (px p1) (px p2) (px p3) t t t, blc_f (py p0) (py p1) (py p2) (py p3) t t t).
 
 Definition chk_flat_quad (p0 p1 p2 : pt) (ts : list Q) (vs : list pt) (tol K slack : Q) : bool :=
   Nat.eqb (length ts) (length vs) &&
   let l := combine ts vs in
-  chk_ends l p0 p2 && chk_pieces (quadB p0 p1 p2) (quad_pb p0 p1 p2) (sqr (K * tol)) slack l.
+  chk_ends l p0 p2 && chk_pieces (quadB_f p0 p1 p2) (quad_pb p0 p1 p2) (sqr (K * tol)) slack l.
 
 Definition chk_flat_cube (p0 p1 p2 p3 : pt) (ts : list Q) (vs : list pt) (tol K slack : Q) : bool :=
   Nat.eqb (length ts) (length vs) &&
   let l := combine ts vs in
-  chk_ends l p0 p3 && chk_pieces (cubeB p0 p1 p2 p3) (cube_pb p0 p1 p2 p3) (sqr (K * tol)) slack l.
+  chk_ends l p0 p3 && chk_pieces (cubeB_f p0 p1 p2 p3) (cube_pb p0 p1 p2 p3) (sqr (K * tol)) slack l.
 
 (** ** The source's step rule (flattenQuadraticBezier), relational in the square root:
     the code takes t = 2 sqrt(tol |D| / |D x (p2-p0)|) with D = p1-p0; a step t obeys the rule when
